@@ -93,12 +93,12 @@ def spec(a, n):
     default_ok = z3.If(defaultable, nmarks == 1, nmarks == 0)
     all_fit = z3.And(*[fits(base, v) for v in vals])
     valid = z3.And(all_fit, default_ok, *no_ovf)
-    return vals, marks, defaultable, valid, all_fit, default_ok
+    return vals, marks, defaultable, valid, all_fit, default_ok, z3.And(*no_ovf) if no_ovf else z3.BoolVal(True)
 
 
 def leaf_queries(I, a, leaf, py, sl):
     n = sl.ctx['n']
-    vals, marks, defaultable, valid, all_fit, default_ok = spec(a, n)
+    vals, marks, defaultable, valid, all_fit, default_ok, no_overflow = spec(a, n)
     if leaf.kind != 'ret':
         return [Query('no-%s' % leaf.kind, z3.BoolVal(True))]
     if not is_ok(py):
@@ -107,6 +107,8 @@ def leaf_queries(I, a, leaf, py, sl):
     bad = []
     fit_query = Query('accepted-enum-values-fit-the-base-type', z3.Not(all_fit))
     bad.append(z3.Not(default_ok))
+    # an implicit value that would be isize::MAX + 1 has no representation in the model: such an enum must have been rejected
+    bad.append(z3.Not(no_overflow))
     if len(it.fields) != n: bad.append(z3.BoolVal(True))
     else:
         for i, (nm, v) in enumerate(it.fields):
@@ -130,7 +132,7 @@ def leaf_queries(I, a, leaf, py, sl):
 
 def region_env(a, sl):
     n = sl.ctx['n']
-    vals, marks, defaultable, valid, all_fit, default_ok = spec(a, n)
+    vals, marks, defaultable, valid, all_fit, default_ok, no_overflow = spec(a, n)
     return {'all_fit': all_fit, 'default_ok': default_ok, 'valid': valid}
 
 
